@@ -380,6 +380,7 @@ func (s *subscriberServer) ListSubscriptions(
 	err := s.client.DoTx(ctx, nil, func(tx *ent.Tx) error {
 		predicates := []predicate.Subscription{
 			subscription.NameHasPrefix(projectSubscriptionPrefix(req.Project)),
+			nameHasExactPrefix(subscription.FieldName, projectSubscriptionPrefix(req.Project)),
 			subscription.DeletedAtIsNil(),
 		}
 		if req.PageToken != "" {
